@@ -31,7 +31,9 @@ def oq(v):
 
 # ------------------------------------------------------------------ generator
 def gen_case(rng, limits=False, kinds=None):
-    d = mg.gen_definition(rng, kinds=kinds or mg.JUMP_KINDS, sym_mag=False, odes=False, min_events=1)
+    # C11 also covers models that mix events with explicit ODE terms (deterministic drift inside a tau leap)
+    with_odes = bool(limits and rng.random() < 0.3)
+    d = mg.gen_definition(rng, kinds=kinds or mg.JUMP_KINDS, sym_mag=False, odes=with_odes, min_events=1)
     nS = len(d["states"])
     x0 = [int(v) for v in rng.integers(0, 25, size=nS)]
     if limits:
@@ -57,7 +59,7 @@ def gen_case(rng, limits=False, kinds=None):
             b = hi if hi is not None else a + 12
             x0.append(int(rng.integers(a, b + 1)))
     theta = {p: float(rng.integers(1, 17)) / 8 for p in d["params"]}
-    exact = bool(rng.random() < 0.5)
+    exact = bool(rng.random() < 0.5) and not d["odes"]
     pre_tau = None
     eps = 0.03
     if not exact:
@@ -142,7 +144,7 @@ def judge(c, r):
             return ("counts", "step %d counts %s" % (k, n))
         if c["exact"] and sorted(n) != [0] * (nE - 1) + [1]:
             return ("exact-not-one-event", "step %d counts %s" % (k, n))
-        if not np.array_equal(xs[k + 1] - xs[k], V @ np.array(n, float)):
+        if not d["odes"] and not np.array_equal(xs[k + 1] - xs[k], V @ np.array(n, float)):
             return ("delta-not-V-times-counts", "step %d: dx=%s, V.n=%s" % (k, (xs[k + 1] - xs[k]).tolist(), (V @ np.array(n, float)).tolist()))
     if ts[-1] < c["T"]:
         m = r["model"]
@@ -225,6 +227,17 @@ SHAPES = [  # one event / one state / both: the shapes that used to crash
     dict(states=["y1", "y2"], params=["beta", "gamma"], derived=[], decl="range", odes=[], _x0=[2, 2], _T=12.0,
          events=[dict(rate="beta", kind="const", trans=[dict(ty="D", o=1, d=None, mag="1")]),
                  dict(rate="gamma", kind="const", trans=[dict(ty="D", o=0, d=None, mag="2")])]),
+    # a very slow process: rates of 1e-10 are positive rates, the path must go on until the horizon
+    dict(states=["X"], params=["beta", "gamma"], derived=[], decl="list", odes=[], _x0=[5], _T=2e10, _theta=dict(beta=1e-10, gamma=1e-10),
+         events=[dict(rate="beta*X", kind="linear", trans=[dict(ty="D", o=0, d=None, mag="1")])]),
+    # an upper limit of exactly 0 (a falsy value) on a state that a birth tries to raise
+    dict(states=["P", "D"], params=["beta", "gamma"], derived=[], decl="list", odes=[], lims=[(0, 6), (-4, 0)], _x0=[3, -2], _T=6.0,
+         events=[dict(rate="beta", kind="const", trans=[dict(ty="B", o=None, d=1, mag="1")]),
+                 dict(rate="gamma", kind="const", trans=[dict(ty="B", o=None, d=0, mag="1")])]),
+    # deterministic drift (explicit ODE terms) pushing against an upper and a lower limit under tau leaping
+    dict(states=["F", "E"], params=["beta", "gamma"], derived=[], decl="list", lims=[(0, 10), (0, None)], _x0=[9, 1], _T=4.0, _tau_only=True,
+         odes=[dict(state=0, eqn="beta"), dict(state=1, eqn="-gamma")],
+         events=[dict(rate="beta/100", kind="const", trans=[dict(ty="B", o=None, d=1, mag="1")])]),
     dict(states=["X"], params=["beta", "gamma"], derived=[], decl="list", odes=[],
          events=[dict(rate="beta", kind="const", trans=[dict(ty="B", o=None, d=0, mag="2")]),
                  dict(rate="gamma*X", kind="linear", trans=[dict(ty="D", o=0, d=None, mag="1")])]),
@@ -241,8 +254,11 @@ def drive(ck, pid, limits):
     for d in SHAPES:
         for exact in (True, False):
             dd = {k: v for k, v in d.items() if not k.startswith("_")}
-            cases.append(dict(definition=dd, x0=d.get("_x0", [6] * len(d["states"])), theta={p: 0.75 for p in d["params"]},
-                              exact=exact, pre_tau=None, epsilon=0.03, seed=5, T=d.get("_T", 1.5)))
+            if exact and d.get("_tau_only"):
+                continue
+            cases.append(dict(definition=dd, x0=d.get("_x0", [6] * len(d["states"])),
+                              theta=d.get("_theta", {p: 0.75 for p in d["params"]}),
+                              exact=exact, pre_tau=(0.25 if d.get("_tau_only") else None), epsilon=0.03, seed=5, T=d.get("_T", 1.5)))
     cases += [gen_case(rng, limits=limits) for _ in range(N)]
     coq_cases, dist = [], {}
     t_end = time.time() + ck.budget(110, 700)
